@@ -25,6 +25,8 @@ class Sched:
         self.aborting = False
         self.current = None
         self.steps = 0
+        self.clock = None        # virtual clock (time-limited lock waits)
+        self.deadline = {}
 
     def register(self, t):
         self.go[t] = threading.Semaphore(0)
@@ -43,11 +45,17 @@ class Sched:
 
     def run(self):
         while True:
+            now = self.clock.t if self.clock is not None else 0.0
             runnable = [t for t, s in self.state.items() if s == "ready" or
-                        (s == "blocked" and self.blocked_on[t].owner is None)]
+                        (s == "blocked" and (self.blocked_on[t].owner is None or
+                                             (self.deadline.get(t) is not None and now >= self.deadline[t])))]
             if not runnable:
                 if all(s == "done" for s in self.state.values()):
                     return
+                waits = [self.deadline[t] for t, s in self.state.items() if s == "blocked" and self.deadline.get(t) is not None]
+                if waits and self.clock is not None:
+                    self.clock.t = max(self.clock.t, min(waits))     # everybody waits: time passes until the first time-limited wait ends
+                    continue
                 self.events.append({"th": 0, "op": "deadlock"})
                 self._abort()
                 return
@@ -83,11 +91,23 @@ class SLock:
             return True
         me = self.sched.current
         self.sched.yield_("lock")
+        clock = self.sched.clock
+        limit = None
+        if not blocking:
+            limit = clock.t if clock is not None else 0.0
+        elif timeout is not None and timeout >= 0 and clock is not None:
+            limit = clock.t + timeout           # threading semantics: wait at most `timeout` seconds (virtual time here)
         while self.owner is not None and self.owner != me:
+            if limit is not None and (clock is None or clock.t >= limit):
+                self.sched.state[me] = "ready"
+                self.sched.deadline.pop(me, None)
+                return False
             self.sched.state[me] = "blocked"
             self.sched.blocked_on[me] = self
+            self.sched.deadline[me] = limit
             self.sched.yield_("lockwait")
         self.sched.state[me] = "ready"
+        self.sched.deadline.pop(me, None)
         self.owner = me
         self.depth += 1
         return True
@@ -106,13 +126,14 @@ class SLock:
 
 
 def run_schedule(tid, nthreads, k, picker, rng, broken_lock=False, client_name="tcp", units_differ=False, drop_first_of=0,
-                 connfail_first=False):
+                 connfail_first=False, slow=False):
     """drop_first_of = t: the peer does not answer thread t's first transmission (the client retries after a back-off sleep);
     connfail_first: the very first connection attempt fails (that caller gets a ConnectionException, the others must go on)"""
     clock = C.VClock()
     kind0 = C.CLIENTS[client_name][0]
     line = C.Line(clock, kind0)
     sched = Sched(picker)
+    sched.clock = clock
     if hasattr(picker, "__closure__") and getattr(picker, "_sched_ref", None) is not None:
         picker._sched_ref["s"] = sched
     frames = []
@@ -136,6 +157,10 @@ def run_schedule(tid, nthreads, k, picker, rng, broken_lock=False, client_name="
         rsp = bytes([3, 2 * qty]) + struct.pack(">H", addr) * qty
         fr = C.pyframe(kind0, tid_, 0, uid_, rsp)
         lat = (addr % 3)
+        if slow:
+            # every reply arrives within the client's time-out, but late in it: callers queue for longer than one whole transaction
+            line.pending.append([clock.t + 0.45 + 0.2 * lat, fr])
+            return {"rx": b""}
         if lat == 0:
             return {"rx": fr}
         line.pending.append([clock.t + 0.13 * lat, fr])     # replies of different latencies (virtual time)
@@ -290,6 +315,12 @@ def run(prop, tier):
             if j % 2 == 0:
                 traces.append(run_schedule("c%d" % k, nt, kk, p, rng, connfail_first=True))
                 k += 1
+    # slow peers: every reply inside the time-out but late, so that the last caller queues for several transaction times
+    for nt, kk in ([(3, 2), (4, 1)] if tier == "quick" else [(3, 2), (4, 1), (4, 3)]):
+        ps = pickers(nt, rng, "quick")
+        for j, p in enumerate(ps[::6] if tier == "quick" else ps):
+            traces.append(run_schedule("w%d" % k, nt, kk, p, rng, units_differ=(j % 2 == 1), slow=True))
+            k += 1
     # the same on a serial RTU client (its send path waits on the client state and the silent interval: more yield points)
     for nt, kk in ([(2, 2), (3, 2)] if tier == "quick" else [(2, 2), (3, 2), (4, 2)]):
         ps = pickers(nt, rng, "quick")
